@@ -171,7 +171,7 @@ func (r *Run) Finish() int {
 		}
 		if i < 40 {
 			fmt.Printf("VIOLATION property=%s replay=%s\n", r.ID, path)
-			fmt.Printf("  signature: %s (x%d)\n  %s\n", sig, r.violCount[sig], firstLines(rp.Detail, 12))
+			fmt.Printf("  signature: %s (x%d)\n  %s\n", sig, r.violCount[sig], firstLines(rp.Detail, 4))
 		}
 		code = 1
 	}
@@ -227,6 +227,11 @@ func firstLines(s string, n int) string {
 	ls := strings.Split(s, "\n")
 	if len(ls) > n {
 		ls = append(ls[:n], "...")
+	}
+	for i := range ls {
+		if len(ls[i]) > 240 {
+			ls[i] = ls[i][:240] + "..."
+		}
 	}
 	return strings.Join(ls, "\n  ")
 }
